@@ -46,6 +46,26 @@ type Config struct {
 	DiscardQuery bool       `json:"discard_query,omitempty"`
 	Rules        []RuleSpec `json:"rules,omitempty"` // WithRules
 	WithRoute    bool       `json:"with_route,omitempty"`
+	// OtherOpts: the Route service is registered with these options of its own (instead of the
+	// ones above) - a second, differently configured service whose options must not leak.
+	OtherOpts  *OtherOptions `json:"other_opts,omitempty"`
+	OtherFirst bool          `json:"other_first,omitempty"` // register it before the Bench service
+}
+
+type OtherOptions struct {
+	Protocols    []string `json:"protocols,omitempty"`
+	Codecs       []string `json:"codecs,omitempty"`
+	Compressions []string `json:"compressions"`
+	NoCompress   bool     `json:"no_compress,omitempty"`
+	MaxMsg       uint32   `json:"max_msg,omitempty"`
+}
+
+func (o *OtherOptions) options() []vanguard.ServiceOption {
+	so := serviceOptions(Config{Protocols: o.Protocols, Codecs: o.Codecs, Compressions: o.Compressions, MaxMsg: o.MaxMsg})
+	if o.NoCompress {
+		so = append(so, vanguard.WithNoTargetCompression())
+	}
+	return so
 }
 
 type Fault struct {
@@ -211,16 +231,25 @@ func buildTranscoder(cfg Config, handler http.Handler, unknown http.Handler) (*v
 	so := serviceOptions(cfg)
 	topts := transcoderBaseOptions()
 	var svcs []*vanguard.Service
+	routeOpts := so
+	if cfg.ViaDefaults {
+		routeOpts = nil
+	}
+	if cfg.OtherOpts != nil {
+		routeOpts = cfg.OtherOpts.options()
+	}
 	if cfg.ViaDefaults {
 		topts = append(topts, vanguard.WithDefaultServiceOptions(so...))
 		svcs = append(svcs, vanguard.NewServiceWithSchema(s.bench, handler))
-		if cfg.WithRoute {
-			svcs = append(svcs, vanguard.NewServiceWithSchema(s.route, handler))
-		}
 	} else {
 		svcs = append(svcs, vanguard.NewServiceWithSchema(s.bench, handler, so...))
-		if cfg.WithRoute {
-			svcs = append(svcs, vanguard.NewServiceWithSchema(s.route, handler, so...))
+	}
+	if cfg.WithRoute || cfg.OtherOpts != nil {
+		route := vanguard.NewServiceWithSchema(s.route, handler, routeOpts...)
+		if cfg.OtherFirst {
+			svcs = append([]*vanguard.Service{route}, svcs...)
+		} else {
+			svcs = append(svcs, route)
 		}
 	}
 	if len(cfg.Rules) > 0 {
